@@ -346,9 +346,9 @@ def c14_schema(sid, pairs):
     msgs, fields = [], []
     names = {}
     plain, nested = set(), set()
-    for (kind, A, B) in pairs:
-        _all_tags(A, nested, plain)
-        _all_tags(B, nested, plain)
+    for e in pairs:
+        for d in e[1:]:
+            _all_tags(d, nested, plain)
     for t in sorted(plain):
         names[t] = 'F%d' % t
         typ = C14_TYPES[(t - 5001) % 6] if 5001 <= t <= 5006 else ['STRING', 'INT', 'CHAR', 'PRICE'][t % 4]
@@ -358,11 +358,12 @@ def c14_schema(sid, pairs):
         fields.append((t, names[t], 'NUMINGROUP', ()))
     fields.append((5900, 'Extra', 'STRING', ()))
     tagmap = {}
-    for k, (kind, A, B) in enumerate(pairs):
+    for k, e in enumerate(pairs):
+        kind = e[0]
         cnt = C14_COUNT + k
         names[cnt] = 'NoG%d' % k
         fields.append((cnt, names[cnt], 'NUMINGROUP', ()))
-        for side, d in (('a', A), ('b', B)):
+        for side, d in zip('abc', e[1:]):
             mt = 'P%d%s' % (k, side)
             body = ''
             if side == 'a':
@@ -371,9 +372,9 @@ def c14_schema(sid, pairs):
             if side == 'b':
                 body += "   <field name='Extra' required='N' />\n"
             msgs.append(('Msg%d%s' % (k, side.upper()), mt, 'app', body))
-            tagmap[mt] = ['pair:' + kind, 'side:' + ('first' if side == 'a' else 'second')]
+            tagmap[mt] = ['pair:' + kind, 'side:' + {'a': 'first', 'b': 'second', 'c': 'third'}[side]]
     return dict(id=sid, xml=schema_xml(msgs, [], fields), pairs=pairs, tagmap=tagmap,
-                desc='; '.join('%s: [%s] vs [%s]' % (k, defn_show(a), defn_show(b)) for (k, a, b) in pairs)[:600])
+                desc='; '.join('%s: %s' % (e[0], ' vs '.join('[' + defn_show(d) + ']' for d in e[1:])) for e in pairs)[:600])
 
 
 def _flags(tags):
@@ -389,7 +390,7 @@ def c14_universe():
     return U
 
 
-def c14_family(tier, collisions):
+def c14_family(tier, collisions, triples=()):
     """collisions: list of (tagsA, tagsB) from the exhaustive hash search (sorted tag tuples, simplest first).
        returns list of schema dicts.  quick: 10 single-pair schemas; thorough: every unordered pair of the universe
        (packed 16 pairs to a schema, one count field per pair), nested / order / flags variants, collisions both ways."""
@@ -420,7 +421,11 @@ def c14_family(tier, collisions):
         if col2:
             add([('hash-collision', _flags(col2[0][1]), _flags(col2[0][0]))])   # the same pair the other way round
             # the colliding member sets one level down: same direct members, nested definitions that differ but hash alike
-            add([('nested-hash-collision', nest(None, col2[0][0]), nest(None, col2[0][1]))])
+            for t3 in triples[:1]:      # three definitions under one count field that all hash alike
+                add([('hash-collision-triple', _flags(t3[0]), _flags(t3[1]), _flags(t3[2]))])
+            ncol = [c for c in col2 if 5001 not in c[0] + c[1]]
+            if ncol:
+                add([('nested-hash-collision', nest(None, ncol[0][0]), nest(None, ncol[0][1]))])
     else:
         allpairs = [('distinct-sets', a, b) for a, b in itertools.combinations(U, 2)]
         for i in range(0, len(allpairs), 16):
@@ -436,7 +441,12 @@ def c14_family(tier, collisions):
             add([('hash-collision', _flags(c[0]), _flags(c[1]))])
         for c in col2[:10] + col3[:10]:
             add([('hash-collision', _flags(c[1]), _flags(c[0]))])
-        for c in col2[:10] + col3[:5]:
+        for t3 in triples:
+            add([('hash-collision-triple', _flags(t3[0]), _flags(t3[1]), _flags(t3[2]))])
+            add([('hash-collision-triple', _flags(t3[2]), _flags(t3[0]), _flags(t3[1]))])
+        # (a nested member set must not contain the outer group's own first member 5001: an element of the nested group
+        # would begin like an element of the outer one and the wire form would be ambiguous)
+        for c in [c for c in col2 if 5001 not in c[0] + c[1]][:10] + [c for c in col3 if 5001 not in c[0] + c[1]][:5]:
             add([('nested-hash-collision', nest(None, c[0]), nest(None, c[1]))])
     return fam
 
